@@ -34,6 +34,8 @@ type world struct {
 	args     []string // arguments received by User.calc, rendered
 	introspection bool // introspection enabled for the operation
 	onCall   func(n int) // called at the n-th resolver call (cancellation points)
+	regExt    bool    // every resolver-backed field registers the response extension "cost": the second registration is an API misuse that panics inside gqlgen
+	regs      int
 	cancels   bool    // the harness cancels the request context itself (C05): a cancelled context is not a fault then
 	subEvents []*User // the events the subscription resolver emitted
 	onlyIntercept bool // deviations are spent on interceptor outcomes only
@@ -211,7 +213,7 @@ func (w *world) Resolve(pt, pid, field string, args map[string]any) ref.Out {
 		default:
 			o, _ = w.fault(c, 3)
 		}
-	case "User.secret", "User.echo", "User.calc", "User.patch":
+	case "User.secret", "User.echo", "User.calc", "User.patch", "User.tint":
 		c := w.pick(key, 2+w.nf())
 		switch c {
 		case 0:
@@ -328,6 +330,20 @@ func (w *world) fieldMiddleware(ctx context.Context, next graphql.Resolver) (any
 		// end of the request may cancel it - not, for instance, the failure of a sibling
 		if err := ctx.Err(); err != nil {
 			return nil, err
+		}
+	}
+	if w.regExt {
+		if fc := graphql.GetFieldContext(ctx); fc.IsResolver {
+			w.mu.Lock()
+			n := w.regs
+			w.regs++
+			if n >= 1 {
+				// this registration panics ("extension already registered"): user code failing at this position
+				w.guards["mw:"+worldPID(fc)+"/"+fc.Object+"."+fc.Field.Name] = ref.KPanic
+				w.raised++
+			}
+			w.mu.Unlock()
+			graphql.RegisterExtension(ctx, "cost", n)
 		}
 	}
 	if w.intercept {
@@ -838,6 +854,30 @@ func (r *userResolver) Patch(ctx context.Context, obj *User, p *Patch, b map[str
 	return r.str(obj, "patch")
 }
 
+// Tint records the generated enum values the binder handed over.
+func (r *userResolver) Tint(ctx context.Context, obj *User, s *Shade, ss []Shade) (*string, error) {
+	a := "s="
+	if s == nil {
+		a += "nil"
+	} else {
+		a += string(*s)
+	}
+	a += " ss="
+	if ss == nil {
+		a += "nil"
+	} else {
+		var p []string
+		for _, x := range ss {
+			p = append(p, string(x))
+		}
+		a += "[" + strings.Join(p, ",") + "]"
+	}
+	r.w.mu.Lock()
+	r.w.args = append(r.w.args, a)
+	r.w.mu.Unlock()
+	return r.str(obj, "tint")
+}
+
 type itemResolver struct{ w *world }
 
 func (r *itemResolver) Owner(ctx context.Context, obj *Item) (*User, error) {
@@ -892,6 +932,30 @@ func (w *world) guardDirective(ctx context.Context, obj any, next graphql.Resolv
 	return next(ctx)
 }
 
+// markDirective: the executable directive @mark(k) on a field of the operation.
+func (w *world) markDirective(ctx context.Context, obj any, next graphql.Resolver, k int) (any, error) {
+	fc := graphql.GetFieldContext(ctx)
+	pid := ""
+	switch o := obj.(type) {
+	case *User:
+		pid = o.ID
+	case *Item:
+		pid = o.ID
+	case *Box:
+		pid = o.ID
+	}
+	switch w.Guard(5, pid, fc.Field.Name) {
+	case ref.KNull:
+		return nil, nil
+	case ref.KError:
+		return nil, errBoom
+	case ref.KPanic:
+		w.notePanic()
+		panic("field directive panic")
+	}
+	return next(ctx)
+}
+
 // ---- running one operation through the generated executor
 
 var (
@@ -938,7 +1002,7 @@ type runResult struct {
 }
 
 func newES(w *world) graphql.ExecutableSchema {
-	return NewExecutableSchema(Config{Resolvers: &resolverRoot{w}, Directives: DirectiveRoot{Guard: w.guardDirective}})
+	return NewExecutableSchema(Config{Resolvers: &resolverRoot{w}, Directives: DirectiveRoot{Guard: w.guardDirective, Mark: w.markDirective}})
 }
 
 // runOp executes op of doc on the generated executor with the real
